@@ -95,6 +95,7 @@ def build_group(G, bdir, log):
     cfg.drop_calls = set(cxx2c.norm_name(x) for x in G.get('drop_calls', ()))
     cfg.outside_methods = {k: set(v) for k, v in G.get('outside_methods', {}).items()}
     cfg.opaque_records = set(G.get('opaque_records', ()))
+    cfg.field_alias = dict(G.get('field_alias', {}))
     cfg.scalar_records = dict(G.get('scalar_records', {}))
     cfg.outside_funcs = dict(G.get('outside_funcs', {}))
     cfg.extra_structs = {cxx2c.norm_name(a): b for a, b in G.get('extra_structs', {}).items()}
@@ -113,8 +114,8 @@ def build_group(G, bdir, log):
         if isinstance(r, str):
             r = {'name': r}
         if 'lambda_in' in r:
-            got = u.add_lambda_root(r['lambda_in'], r['file'], r['line'])
-            names[r.get('as', 'lambda@%s:%s' % (r['file'], r['line']))] = got
+            got = u.add_lambda_root(r['lambda_in'], r.get('file'), r.get('line'), r.get('ordinal'))
+            names[r.get('as', 'lambda@%s:%s:%s' % (r['lambda_in'], r.get('file', ''), r.get('ordinal', r.get('line'))))] = got
             continue
         got = u.add_root(r['name'], sig=r.get('sig'), targs=r.get('targs'))
         names[r.get('as', r['name'])] = got
@@ -122,6 +123,15 @@ def build_group(G, bdir, log):
     for rn in G.get('complete_records', ()):
         u.need_struct(cxx2c.norm_name(rn))
     unused = set(cfg.loop_contracts) - getattr(cfg, 'loop_contracts_used', set())
+    # a loop contract for a function that is still there but has fewer loops now: the function contract is still enforced
+    # (on the loop-free / shorter body); anything else (function gone, renamed) stays an extraction abort
+    nloops = {f['c']: f['loops'] for f in u.report['functions']}
+    G['_lost_loops'] = set()
+    for (fn, k) in sorted(unused):
+        if fn in nloops and nloops[fn] < k:
+            print('NOTE loop contract %s #%d matched no loop: the function has %d loop(s) now' % (fn, k, nloops[fn]))
+            G['_lost_loops'].add(fn)
+            unused.discard((fn, k))
     if unused:
         raise cxx2c.Abort('loop contracts that matched no loop (function renamed or loop removed?): %s' % sorted(unused))
     gen = os.path.join(bdir, 'gen.c')
@@ -418,7 +428,7 @@ def run_job(G, u, gen, bdir, job, tier):
         out_props.append(item)
     res['props'] = out_props
     res['twin_seen'], res['twin_failed'] = twin_seen, twin_failed
-    if job.get('loops'):
+    if job.get('loops') and job.get('enforce') not in G.get('_lost_loops', ()):
         if not any('loop_invariant_base' in (p.get('property') or '') or 'loop invariant' in p.get('description', '').lower() for p in props):
             res['reason'] = 'loop contracts requested but no loop-invariant obligations were generated'
             return res
